@@ -103,7 +103,17 @@ pub fn run(args: &[String], out: &mut dyn Write) -> i32 {
         let mut o: Option<String> = None;
         let mut s: Option<String> = None;
         let mut bin = false;
+        let mut pdb: Option<(String, String, String)> = None;      // (target, price db with canonical names, the same with aliases)
         for w in &ws[1..] {
+            if let Some(v) = w.strip_prefix("pdb=") {
+                let parts: Vec<&str> = v.split(',').collect();
+                if parts.len() == 3 {
+                    if let (Some(t), Some(a), Some(b)) = (sx::dec(parts[0]), sx::dec(parts[1]), sx::dec(parts[2])) {
+                        pdb = Some((t, a, b));
+                    }
+                }
+                continue;
+            }
             if let Some(v) = w.strip_prefix("o=") {
                 o = sx::dec(v);
             } else if let Some(v) = w.strip_prefix("s=") {
@@ -135,6 +145,24 @@ pub fn run(args: &[String], out: &mut dyn Write) -> i32 {
             let po = po.display().to_string();
             let (rb, ob) = run_bin(&["balance", &po]);
             let (rr, or) = run_bin(&["register", &po]);
+            // a converted report with the price db spelled canonically / through aliases the ledger declares
+            if let Some((t, pa, pb)) = &pdb {
+                let fa = dir.join("canonical.db");
+                let fb = dir.join("alias.db");
+                std::fs::write(&fa, pa).unwrap();
+                std::fs::write(&fb, pb).unwrap();
+                let lp = match &s {
+                    Some(s) => {
+                        let ps = dir.join("s0.ledger");
+                        std::fs::write(&ps, s).unwrap();
+                        ps.display().to_string()
+                    }
+                    None => po.clone(),
+                };
+                let (r1, o1) = run_bin(&["balance", "-X", t, "--now", "2999-01-01", "--price-db", &fa.display().to_string(), &lp]);
+                let (r2, o2) = run_bin(&["balance", "-X", t, "--now", "2999-01-01", "--price-db", &fb.display().to_string(), &lp]);
+                rec.push_str(&format!(" pdb={},{},{} {}", r1, r2, (o1 == o2) as u8, enc(&format!("{}\n--\n{}", o1, o2))));
+            }
             match &s {
                 None => rec.push_str(&format!(" bin={},{} {}", rb, rr, enc(&ob))),
                 Some(s) => {
